@@ -20,6 +20,13 @@
 (* Thread programs are sequences over "L" lock, "T" try_lock, "A" access the protected      *)
 (* value through the guard (read-modify-write), "U" drop the guard; a failed try_lock       *)
 (* leaves out the rest of its section.                                                      *)
+(*                                                                                          *)
+(* Payload access rule assumed by this model (type-level obligations, checked statically   *)
+(* by the check against the real crate, table in SyncTrace.tla): the payload is touched     *)
+(* only through a guard, by the thread that acquired the guard, one thread at a time, and   *)
+(* the guard is dropped by that same thread.  Hence Mutex<T>: Send + Sync for every         *)
+(* T: Send (a Cell payload is fine) and for no other T (Mutex<Rc<_>> neither Send nor Sync);*)
+(* MutexGuard is never Send; MutexGuard<T>: Sync only if T: Sync.  Same as std::sync.       *)
 EXTENDS Machine, TLC
 
 CONSTANTS N,          \* number of threads
